@@ -81,7 +81,7 @@ def server_line(rng, force=None):
     o = {
         "cont": rng.choice(["s", "v"]),
         "flavour": rng.choice(["tcp", "tcp", "ssl"]),
-        "policy": rng.choice(["sync", "sync", "sync", "deferred", "router", "none"]),
+        "policy": rng.choice(["sync", "sync", "sync", "sync", "sync", "sync", "deferred", "deferred", "router", "router", "none", "none", "disc"]),
         "chunkh": rng.choice([0, 0, 1]),
         "conth": rng.choice([0, 0, 1, 1, 2]),
         "invh": rng.choice([0, 0, 0, 1]),
@@ -96,6 +96,8 @@ def server_line(rng, force=None):
         o["resp"] = "chunked"
     if o["policy"] == "router":
         o["chunkh"] = 0
+    if rng.chance(1, 14) and not (force and "filter" in force):
+        o["onconn"] = "disc"      # the connected handler turns the peer away (not in the every-request-is-answered scripts)
     if force:
         o.update(force)
     line = "server " + " ".join("%s=%s" % (k, v) for k, v in o.items())
